@@ -183,9 +183,16 @@ def repro(argv, inputs, cores, bufsize, r, fine):
                 choices=[c for c, _, _ in r.choices])
 
 
+def _decompressed(files):
+    """compressed outputs are compared after decompression (the property's wording)"""
+    return {n: (clirun.text_of(d).encode("latin-1") if n.endswith((".gz", ".bz2", ".xz", ".zst")) else d) for n, d in files.items()}
+
+
 def compare_with_serial(ctx, base, base_stats, r, inp, prop="C06"):
     """byte comparison of every output file and of the statistics; returns True if equal"""
     ok = True
+    if any(n.endswith((".gz", ".bz2", ".xz", ".zst")) for n in list(r.files) + list(base.files)) and base.status == 0 and r.status == 0:
+        r.files, base.files = _decompressed(r.files), _decompressed(base.files)
     if (base.status == 0) != (r.status == 0):
         ctx.failures.append(Failure(f"{prop}/output-differs-from-single-core", "exit status differs from the single-core run", inp,
                                     dict(status=r.status, exc=r.exc, stderr=r.stderr[-300:]), dict(status=base.status, exc=base.exc)))
@@ -354,7 +361,13 @@ def real_runs(ctx, n_runs, budget_s):
         bufsize, nchunks = choose_buffer(rng, inputs, names, rng.randint(2, 6))
         if bufsize is None:
             continue
-        argv = ["--buffer-size", str(bufsize)] + list(case["argv"]) + in_args
+        cargv = list(case["argv"])
+        if rng.random() < 0.35:
+            # compressed record outputs (the compressor runs in threads of its own when several cores are used); compared after decompression
+            z = rng.choice([".gz", ".gz", ".bz2", ".xz"])
+            cargv = [t + z if t.startswith("{dir}/") and t.endswith((".fastq", ".fasta")) else t for t in cargv]
+            ctx.count("real-processes:compressed-outputs")
+        argv = ["--buffer-size", str(bufsize)] + cargv + in_args
         base, base_stats = serial_base(argv, inputs)
         if base.status == 2:
             continue
